@@ -87,6 +87,49 @@ pub fn contract_rt_stfu(cid: [u8; 32], initiator: bool) -> Outcome {
 	}
 }
 
+pub fn contract_rt_tx_remove_input(cid: [u8; 32], serial_id: u64) -> Outcome {
+	let m = TxRemoveInput { channel_id: ChannelId(cid), serial_id };
+	let mut w = ArrW80::new();
+	if m.write(&mut w).is_err() || w.overflow || w.len != 40 {
+		return Outcome::Violated;
+	}
+	let mut rd: &[u8] = &w.buf[..w.len];
+	match <TxRemoveInput as LengthReadable>::read_from_fixed_length_buffer(&mut rd) {
+		Ok(y) => if y.channel_id.0 == cid && y.serial_id == serial_id && rd.len() == 0 { Outcome::Holds } else { Outcome::Violated },
+		Err(_) => Outcome::Violated,
+	}
+}
+pub fn contract_rt_tx_complete(cid: [u8; 32]) -> Outcome {
+	let m = TxComplete { channel_id: ChannelId(cid) };
+	let mut w = ArrW80::new();
+	if m.write(&mut w).is_err() || w.overflow || w.len != 32 {
+		return Outcome::Violated;
+	}
+	let mut rd: &[u8] = &w.buf[..w.len];
+	match <TxComplete as LengthReadable>::read_from_fixed_length_buffer(&mut rd) {
+		Ok(y) => if y.channel_id.0 == cid && rd.len() == 0 { Outcome::Holds } else { Outcome::Violated },
+		Err(_) => Outcome::Violated,
+	}
+}
+pub fn contract_rt_gossip_timestamp_filter(chain: [u8; 32], first_timestamp: u32, timestamp_range: u32) -> Outcome {
+	let m = GossipTimestampFilter { chain_hash: ChainHash::from(chain), first_timestamp, timestamp_range };
+	let mut w = ArrW80::new();
+	if m.write(&mut w).is_err() || w.overflow || w.len != 40 {
+		return Outcome::Violated;
+	}
+	let mut rd: &[u8] = &w.buf[..w.len];
+	match <GossipTimestampFilter as LengthReadable>::read_from_fixed_length_buffer(&mut rd) {
+		Ok(y) => {
+			if y.chain_hash == ChainHash::from(chain) && y.first_timestamp == first_timestamp && y.timestamp_range == timestamp_range && rd.len() == 0 {
+				Outcome::Holds
+			} else {
+				Outcome::Violated
+			}
+		},
+		Err(_) => Outcome::Violated,
+	}
+}
+
 // (P C13) decoding is total on the fixed part and canonical: every 36-byte buffer decodes, and re-encodes to itself
 pub fn contract_canon_update_fee(b: [u8; 36]) -> Outcome {
 	let mut rd: &[u8] = &b[..];
@@ -185,6 +228,9 @@ pub fn replay(name: &str, a: &[u128]) -> Option<Outcome> {
 		"rt_update_fee" => contract_rt_update_fee(arr::<32>(a, 0), a[32] as u32),
 		"rt_update_fail_malformed" => contract_rt_update_fail_malformed(arr::<32>(a, 0), a[32] as u64, arr::<32>(a, 33), a[65] as u16),
 		"rt_stfu" => contract_rt_stfu(arr::<32>(a, 0), a[32] != 0),
+		"rt_tx_remove_input" => contract_rt_tx_remove_input(arr::<32>(a, 0), a[32] as u64),
+		"rt_tx_complete" => contract_rt_tx_complete(arr::<32>(a, 0)),
+		"rt_gossip_timestamp_filter" => contract_rt_gossip_timestamp_filter(arr::<32>(a, 0), a[32] as u32, a[33] as u32),
 		"canon_update_fee" => contract_canon_update_fee(arr::<36>(a, 0)),
 		"update_fee_unknown_tlv" => contract_update_fee_unknown_tlv(a[0] as u32, a[1] as u8),
 		"rt_ping" => contract_rt_ping(a[0] as u16, a[1] as u16),
@@ -213,6 +259,27 @@ mod harnesses {
 	#[kani::unwind(82)]
 	fn h_rt_stfu() {
 		let o = contract_rt_stfu(kani::any(), kani::any());
+		kani::cover!(o == Outcome::Holds);
+		assert!(o != Outcome::Violated);
+	}
+	#[kani::proof]
+	#[kani::unwind(82)]
+	fn h_rt_tx_remove_input() {
+		let o = contract_rt_tx_remove_input(kani::any(), kani::any());
+		kani::cover!(o == Outcome::Holds);
+		assert!(o != Outcome::Violated);
+	}
+	#[kani::proof]
+	#[kani::unwind(82)]
+	fn h_rt_tx_complete() {
+		let o = contract_rt_tx_complete(kani::any());
+		kani::cover!(o == Outcome::Holds);
+		assert!(o != Outcome::Violated);
+	}
+	#[kani::proof]
+	#[kani::unwind(82)]
+	fn h_rt_gossip_timestamp_filter() {
+		let o = contract_rt_gossip_timestamp_filter(kani::any(), kani::any(), kani::any());
 		kani::cover!(o == Outcome::Holds);
 		assert!(o != Outcome::Violated);
 	}
